@@ -320,14 +320,21 @@ def slice_back(body, start_ops=(), start_locals=(), through_calls=True, stop_cal
             sl.fields.add(of)
             if of[0].startswith("{upvar}") and pl["l"] == 1:
                 pass
+        is_upvar = False
         if pl["l"] == 1 and body.kind in NESTED_KINDS:
             for e in pl["p"]:
                 if isinstance(e, dict) and "f" in e and e["o"].startswith("{upvar}"):
                     sl.upvars.add(e["f"])
+                    is_upvar = True
                     break
         for e in pl["p"]:
             if isinstance(e, dict) and "idx" in e:
                 work.append(e["idx"])
+        if is_upvar:
+            # a captured value: tracked per capture (sl.upvars), not through the closure-state local as a whole —
+            # otherwise every capture would depend on every call that receives any other capture mutably
+            sl.locals.add(1) if False else None
+            return
         work.append(pl["l"])
 
     def add_op(op):
